@@ -23,7 +23,7 @@ const prop = "C20"
 
 // op of a generator-pool history.
 type op struct {
-	Kind   string `json:"kind"` // newSno | newFallback | fallbackBurst | draw | drawMany | snapshot | restore
+	Kind   string `json:"kind"` // newSno | newFallback | fallbackBurst | draw | drawMany | snapshot | restore | snapTwice
 	Gen    int    `json:"gen"`  // generator index (modulo pool size)
 	Gor    int    `json:"gor"`  // goroutines drawing
 	Batch  int    `json:"batch"`
@@ -272,6 +272,56 @@ func run(d descriptor) *result {
 				before[k] = struct{}{}
 			}
 			snaps = append(snaps, snap{data: data, before: before, kind: gs.kind, lineage: gs.lineage})
+		case "snapTwice":
+			// a generator whose state is saved after every step at a low rate: a
+			// few draws, a snapshot, a pause longer than the generator's time unit
+			// (4 ms: its sequence starts over), the same number of draws, a second
+			// snapshot - and a generator restored from THAT one at once
+			gs := pool[o.Gen%len(pool)]
+			if gs.kind != "sno" {
+				continue
+			}
+			n := 1 + o.Gor%3
+			label := fmt.Sprintf("gen%d(%s)", o.Gen%len(pool), gs.kind)
+			for i := 0; i < n; i++ {
+				if !record(oi, gs, label, gs.g.New(), "before the first snapshot") {
+					return r
+				}
+			}
+			if _, err := gs.g.Snapshot(); err != nil {
+				r.Symptom, r.Detail = "snapshot", err.Error()
+				return r
+			}
+			time.Sleep(5 * time.Millisecond)
+			for i := 0; i < n; i++ {
+				if !record(oi, gs, label, gs.g.New(), "between the two snapshots") {
+					return r
+				}
+			}
+			before := make(map[string]struct{}, len(gs.own))
+			for k := range gs.own {
+				before[k] = struct{}{}
+			}
+			data, err := gs.g.Snapshot()
+			if err != nil {
+				r.Symptom, r.Detail = "snapshot", err.Error()
+				return r
+			}
+			g, err := id.GetSno().RestoreIdGenerator(ctx, data, tracer)
+			if err != nil {
+				r.Symptom, r.Detail = "restore", err.Error()
+				return r
+			}
+			rs := &genState{g: g, kind: "sno", restored: true, forbidden: before, own: map[string]struct{}{}, lineage: gs.lineage}
+			for i := 0; i < n+2; i++ {
+				if !record(oi, rs, "generator restored from the second snapshot of "+label, g.New(), fmt.Sprintf("%d draws, snapshot, 5 ms, %d draws, snapshot, restore", n, n)) {
+					return r
+				}
+			}
+			if len(pool) < 12 {
+				pool = append(pool, rs)
+			}
+			r.Restores++
 		case "restore":
 			if len(snaps) == 0 || len(pool) >= 12 {
 				continue
@@ -295,7 +345,7 @@ func draw(rt *rapid.T, budget int) descriptor {
 	n := rapid.IntRange(3, 14).Draw(rt, "ops")
 	left := budget
 	for i := 0; i < n; i++ {
-		k := rapid.SampledFrom([]string{"draw", "draw", "draw", "drawMany", "drawMany", "newSno", "newSno", "newFallback", "fallbackBurst", "snapshot", "restore"}).Draw(rt, "kind")
+		k := rapid.SampledFrom([]string{"draw", "draw", "draw", "drawMany", "drawMany", "newSno", "newSno", "newFallback", "fallbackBurst", "snapshot", "restore", "snapTwice"}).Draw(rt, "kind")
 		o := op{Kind: k, Gen: rapid.IntRange(0, 11).Draw(rt, "gen"), Gor: rapid.IntRange(0, 15).Draw(rt, "gor"), SnapID: rapid.IntRange(0, 5).Draw(rt, "snap")}
 		if k == "drawMany" {
 			o.Batch = rapid.SampledFrom([]int{10, 1000, 5000, 20000}).Draw(rt, "batch")
